@@ -128,6 +128,10 @@ public:
         auto in_fun = [&](auto i) { return first[i]; };
         auto out_fun = [&](auto cs) { segments.emplace_back(cs); };
         auto last_n = internal::make_segmentation_par(n, Epsilon, in_fun, out_fun);
+        if (segments.back().get_first_x() == sentinel) { // data ends at sentinel - 1 and the closing point stands alone
+            segments.pop_back();
+            --last_n;
+        }
         levels_offsets.push_back(levels_offsets.back() + last_n);
 
         // Build upper levels
@@ -135,6 +139,10 @@ public:
             auto offset = levels_offsets[levels_offsets.size() - 2];
             auto in_fun_rec = [&](auto i) { return segments[offset + i].get_first_x(); };
             last_n = internal::make_segmentation(last_n, EpsilonRecursive, in_fun_rec, out_fun);
+            if (segments.back().get_first_x() == sentinel) {
+                segments.pop_back();
+                --last_n;
+            }
             levels_offsets.push_back(levels_offsets.back() + last_n);
         }
 
